@@ -7,6 +7,7 @@ from ..gen import J, JI
 from . import lincommon as lc
 
 PROP = "C08"
+HOSTILE = ('scale', 'mean')
 MONITORS = ("WF", "DENS", "CACHE")
 ANCHORS = [("conditional.py", "ConditionalGaussianPDF.affine_marginal_transformation"),
            ("conditional.py", "ConditionalIdentityGaussianPDF.affine_marginal_transformation"),
@@ -71,14 +72,22 @@ def run_cell(cell, rec, seed):
                 q2 = c.condition_on_x(J(X2))
                 ev2 = np.asarray(q2.evaluate(J(y))).reshape(Rc, X2.shape[0], -1)
                 quad2 = np.einsum("n,rny->ry", W2, ev2)
-                if np.max(np.abs(quad - quad2) / (np.abs(quad2) + 1e-300)) > 1e-9:
+                # the far and the zero evaluation point are outside the reach of a quadrature
+                # centred on the prior (p(y|x) is then concentrated far from the nodes and both
+                # orders agree on ~0): judge only the points within ~2 sd of the marginal, and
+                # only where the value is not negligible against the largest one
+                near = slice(0, 3)
+                q1, q2 = quad[:, near], quad2[:, near]
+                big = np.abs(q2) > 1e-6 * np.max(np.abs(q2))
+                if not np.any(big) or np.max(np.abs(q1 - q2)[big] / np.abs(q2)[big]) > 1e-9:
                     rec.count("oracle_unconverged")
                     continue
                 if got is not None:
                     idx = [rc * Rx + rx for rc in range(Rc)]
-                    rec.close("equals quadrature of p(y|x)p(x)", np.exp(np.asarray(got)[idx]),
-                              quad2, ns=np.abs(quad2) * (1 + np.abs(np.log(np.abs(quad2) + 1e-300)))
-                              + 1e-280, tol_rel=1e-7, detail=info,
-                              mech="marginal-vs-quadrature")
+                    g = np.exp(np.asarray(got)[idx])[:, near]
+                    rec.close("equals quadrature of p(y|x)p(x)", np.where(big, g, 0.0),
+                              np.where(big, q2, 0.0),
+                              ns=np.abs(q2) * (1 + np.abs(np.log(np.abs(q2) + 1e-300))) + 1e-280,
+                              tol_rel=1e-7, detail=info, mech="marginal-vs-quadrature")
         if rep == 0 and Rc * Rx > 1:
             rec.sample({"case": info, "mu_y": tj.mu_y, "Sigma_y": tj.Sigma_y})
